@@ -116,6 +116,17 @@ class _GFileModuleProxy:
   def GFile(self, path, mode='r'):  # pylint: disable=invalid-name
     return _GFileWrapper(self._real.GFile, self._inj, path, mode)
 
+  def copy(self, src, dst, overwrite=False):
+    """A copy is NOT atomic: the destination exists (truncated) while the bytes are transferred. It is modelled as
+    open + one write (every prefix can be the crash point) + close on the destination."""
+    if not overwrite and self._real.exists(dst):
+      return self._real.copy(src, dst, overwrite)  # lets the real function raise
+    with self._real.GFile(src, 'rb') as f:
+      data = f.read()
+    self._inj.effect('gfile', 'copy(%s,%s)' % (os.path.basename(str(src)), os.path.basename(str(dst))))
+    with _GFileWrapper(self._real.GFile, self._inj, dst, 'wb') as out:
+      out.write(data)
+
   def __getattr__(self, name):
     fn = getattr(self._real, name)
     if not callable(fn):
